@@ -111,7 +111,8 @@ pub fn decode_script(data: &[u8]) -> crate::script::ScriptSpec {
         let slot = b.u16();
         steps.push(match k % 32 {
             0..=11 => Step::Add { ix, slot, vseed: b.u16() as u32 },
-            12..=14 => Step::Del { ix, slot },
+            12..=13 => Step::Del { ix, slot },
+            14 => Step::DelAll { ix },
             15 => Step::DelAbsent { ix },
             16 => Step::Append { ix, slot, vseed: b.u16() as u32 },
             17 => Step::AppendHigh { ix, bump: b.u8() % 3, vseed: b.u16() as u32 },
